@@ -107,6 +107,8 @@ pub struct EnvConfig {
     pub read_cuts: bool,
     /// offer short-accept answers inside write()
     pub write_cuts: bool,
+    /// at most this many alternative accept sizes per write call
+    pub write_cut_limit: usize,
     /// transport starts with zero write capacity (stalled) after this many bytes were accepted
     pub stall_after: Option<usize>,
     /// Grant sizes offered when stalled (besides "unlimited")
@@ -132,6 +134,7 @@ impl Default for EnvConfig {
             deliver_cut_limit: 2,
             read_cuts: false,
             write_cuts: false,
+            write_cut_limit: 3,
             stall_after: None,
             grant_menu: vec![],
             faults: vec![],
@@ -907,8 +910,8 @@ impl World {
         };
         if st.cfg.write_cuts && st.tr.capacity.is_none() && buf.len() > 1 {
             let mut menu = vec![buf.len()];
-            for c in [1usize, 3, 7, 8, buf.len() / 2, buf.len() - 1] {
-                if c > 0 && c < buf.len() && !menu.contains(&c) {
+            for c in [1usize, buf.len() - 1, 8, 3, 7, buf.len() / 2] {
+                if c > 0 && c < buf.len() && !menu.contains(&c) && menu.len() <= st.cfg.write_cut_limit {
                     menu.push(c);
                 }
             }
